@@ -126,7 +126,7 @@ func check(args []string) int {
 		nviol++
 		if r := resByName[v.Obligation]; r != nil {
 			for _, sp := range specs {
-				if r.Status != "failed" && !sp.Static {
+				if r.Status != "failed" && !sp.Static && !sp.Candidate {
 					continue
 				}
 				if ok, _ := regexp.MatchString(sp.Obligation, v.Obligation); ok {
